@@ -34,6 +34,7 @@ func (P) Rule() string {
 		"prevote/precommit wait, commit) and injects a burst of messages into one correct node through the real reactor path: (a) arbitrary bytes (random, bit-flipped and truncated valid encodings), " +
 		"(b) well-typed messages of all ten kinds with every numeric field from {min,-1,0,1,cur-1,cur,cur+1,total-1,total,2^31,max} and optional components nil, some correctly signed with the attacker's validator key; " +
 		"monitors: the state machine never panics (receiveRoutine would end), round state unchanged by messages that carry no valid signature, no allocation above 64 MiB caused by one message; " +
+		"recover proposals (`recover` ops): with the height's start time shifted by the hook VerifShiftStartTime (0/11/13/600 min) proposals of type recover/normal/unknown for round cs.Round+{-1,0,1,2,5} and height cs.Height+{-1,0,1} that NO validator key signed (no signature, damaged signature, valid signature of an outside key) are delivered through Receive or handleMsg; round, step, validators, votes held, locks, proposal, recover flags must be what they were (known finding: the recover shape past the 12-minute limit); " +
 		"then the simulation must still commit. non-trivial = at least one injected message was forwarded by the reactor to the state machine; distinct = distinct (seed, phase, kind)"
 }
 
@@ -55,6 +56,7 @@ type exec struct {
 	ps          *cs.PeerState // `ps` ops: the peer state of the current case
 	badPick     []string      // `ba`/`ps` ops: returned indices that are not set bits of the array picked from
 	skippedPick int
+	rlast       *rresult
 }
 
 func (P) NewExec() hx.Executor { return &exec{} }
@@ -412,6 +414,8 @@ func (e *exec) Exec(op string) string {
 	case "case":
 		e.last, e.glast, e.ps, e.badPick = nil, nil, nil, nil
 		return "ok"
+	case "recover":
+		return e.execRecover(toks)
 	case "ba":
 		return e.execBA(toks)
 	case "ps":
@@ -465,6 +469,10 @@ func b2i(b bool) int {
 func (P) Monitor(c *hx.CaseRun) []hx.Failure {
 	var fs []hx.Failure
 	for i, op := range c.Ops {
+		if strings.HasPrefix(op, "recover ") {
+			fs = append(fs, monitorRecover(op, c.Impl[i])...)
+			continue
+		}
 		if strings.HasPrefix(op, "bacheck") {
 			toks := hx.Tokens(c.Impl[i])
 			if v, _ := hx.Arg(toks, "badpick"); v != "0" {
@@ -516,6 +524,9 @@ func (P) Generate(g *hx.Gen) {
 	}
 	if only == "" || only == "gossip" {
 		genGossip(g)
+	}
+	if only == "" || only == "recover" {
+		genRecover(g)
 	}
 	if only != "" && only != "fuzz" {
 		return
